@@ -11,10 +11,13 @@
    it inverts ToString on non-negative integers, which is what makes KI n a
    faithful stand-in for ToString(n) in the 15.4.4 algorithms.
 
-   The 15.4.4 algorithms are written once, over a [dialect]: the places where
-   otto is known to behave differently from ES5 are switches of the dialect
-   and the numeric clamps / the array [[DefineOwnProperty]] are components of
-   it.  [es5] is the dialect of the standard; Model.v defines otto's. *)
+   The 15.4.4 algorithms are written once, over a [dialect] whose components are
+   the array [[DefineOwnProperty]] and the numeric clamps: builtin_array.go codes
+   the methods as the 15.4.4 step lists, and what otto codes in its own way are
+   exactly these components.  [es5] is the dialect of the standard; Model.v
+   defines otto's.  (The behavioural departures otto once had -- holes filled in
+   result arrays, reduce over holes, reduceRight's string index, splice(),
+   reverse's order -- were repaired in /repo and are not modelled any more.) *)
 From Coq Require Import ZArith Bool List Lia.
 From Otto Require Import Common.Corr Common.Double.
 Import ListNotations.
@@ -439,10 +442,7 @@ Record dialect := mkDia {
   dia_rel : val -> Z -> option Z;            (* relative start/end -> index in [0,len] *)
   dia_cnt : val -> Z -> option Z;            (* deleteCount -> [0,bound] *)
   dia_indexof : val -> Z -> option (option Z);
-  dia_lastindexof : val -> Z -> option (option Z);
-  dia_fill : bool;            (* result arrays get own undefined elements in place of holes *)
-  dia_reduce_empty : bool;    (* reduce/reduceRight without initial value on an array with no element: undefined instead of TypeError *)
-  dia_rr_str : bool           (* reduceRight passes the index as a string *)
+  dia_lastindexof : val -> Z -> option (option Z)
 }.
 
 Definition es5 : dialect :=
@@ -450,8 +450,7 @@ Definition es5 : dialect :=
         (fun v len => option_map (fun r => clamp_rel r len) (to_integer v))
         (fun v b => option_map (fun r => clamp_cnt r b) (to_integer v))
         (fun v len => option_map (fun r => clamp_indexof r len) (to_integer v))
-        (fun v len => option_map (fun r => clamp_lastindexof r len) (to_integer v))
-        false false false.
+        (fun v len => option_map (fun r => clamp_lastindexof r len) (to_integer v)).
 
 Section Methods.
 Variable D : dialect.
@@ -546,8 +545,6 @@ Definition this_code (a : option marg) : M val :=
   end.
 Definition callable (a : option marg) : bool := match a with Some ACb => true | _ => false end.
 
-Definition fill (l : list (option val)) : list (option val) :=
-  if dia_fill D then map (fun x => match x with None => Some VUndef | s => s end) l else l.
 
 (* read [n] elements starting at [from] the way slice/splice/concat do: hole where HasProperty is false *)
 Definition read_range (n : nat) (from : Z) : M (list (option val)) :=
@@ -633,7 +630,7 @@ Definition m_slice (args : list marg) : M rv :=
   final <- (match ev with VUndef => ret len | _ => opt_m (dia_rel D ev len) end) ;;
   n <- cnt (Z.max (final - k) 0) ;;
   l <- read_range n k ;;
-  ret (RArr (fill l)).
+  ret (RArr l).
 
 (* 15.4.4.12; with exactly one argument the de-facto behaviour (ES2015 22.1.3.25 step 9) *)
 Fixpoint put_items (items : list marg) (k : Z) : M unit :=
@@ -665,7 +662,7 @@ Definition m_splice (args : list marg) : M rv :=
    else ret tt) ;;;
   put_items items start ;;;
   m_put KLen (VNum (len - dc + ic)) ;;;
-  ret (RArr (fill removed)).
+  ret (RArr removed).
 
 (* 15.4.4.13 *)
 Definition m_unshift (args : list marg) : M rv :=
@@ -756,7 +753,7 @@ Definition m_map (args : list marg) : M rv :=
   l <- fold_up n 0 [] (fun k acc =>
          x <- visit tc k ;;
          ret (match x with Some (_, r) => Some r :: acc | None => None :: acc end)) ;;
-  ret (RArr (fill (rev l))).
+  ret (RArr (rev l)).
 
 Definition m_filter (args : list marg) : M rv :=
   len <- m_len ;;
@@ -785,14 +782,13 @@ Definition m_reduce (args : list marg) : M rv :=
       if len =? 0 then throw 6 else
       first <- find_up n 0 (fun k => h <- m_has (KI k) ;; if h then v <- m_get (KI k) ;; ret (Some (k, v)) else ret None) ;;
       match first with
-      | None => if dia_reduce_empty D then ret (RVal VUndef) else throw 6
+      | None => throw 6
       | Some (k, v) =>
           n' <- cnt (len - k - 1) ;;
           r <- fold_up n' (k + 1) v (reduce_step VNum) ;; ret (RVal r)
       end
   end.
 
-Definition rr_idx (k : Z) : val := if dia_rr_str D then VStr (dec k) else VNum k.
 
 Definition m_reduceright (args : list marg) : M rv :=
   len <- m_len ;;
@@ -801,15 +797,15 @@ Definition m_reduceright (args : list marg) : M rv :=
   match nth_arg args 1 with
   | Some a =>
       init <- arg_val (Some a) ;;
-      r <- fold_down n (len - 1) init (reduce_step rr_idx) ;; ret (RVal r)
+      r <- fold_down n (len - 1) init (reduce_step VNum) ;; ret (RVal r)
   | None =>
       if len =? 0 then throw 6 else
       first <- find_down n (len - 1) (fun k => h <- m_has (KI k) ;; if h then v <- m_get (KI k) ;; ret (Some (k, v)) else ret None) ;;
       match first with
-      | None => if dia_reduce_empty D then ret (RVal VUndef) else throw 6
+      | None => throw 6
       | Some (k, v) =>
           n' <- cnt k ;;
-          r <- fold_down n' (k - 1) v (reduce_step rr_idx) ;; ret (RVal r)
+          r <- fold_down n' (k - 1) v (reduce_step VNum) ;; ret (RVal r)
       end
   end.
 
@@ -845,7 +841,7 @@ Definition m_concat (args : list marg) : M rv :=
   fun s =>
     if negb (o_arr (s_o s)) then Ex (-1) s else
     match read_all (s_o s), concat_items (o_proto (s_o s)) args with
-    | Some a, Some r => Ok (RArr (fill (a ++ r))) s
+    | Some a, Some r => Ok (RArr (a ++ r)) s
     | _, _ => Ex (-1) s
     end.
 
